@@ -384,4 +384,12 @@ if __name__ == "__main__":
             check_stream(role, MAKERS.get(inp.get("maker", role), LDAPServer), data, inp.get("label", "replay"), 2)
             print(json.dumps({"violations": violations[:10]}, default=str))
             sys.exit(1 if violations else 0)
+        if "data" in inp and "maker" in inp:
+            # a contract clause that fired inside the sweep: the recorded delivery is made again to a session built by the same maker
+            import ast as _ast
+            mk = inp["maker"]
+            role = "client" if mk in ("client", "searching") else "server"
+            check_stream(role, MAKERS[mk], bytes(_ast.literal_eval(inp["data"])), "replay", 2)
+            print(json.dumps({"violations": violations[:10]}, default=str)[:3000])
+            sys.exit(1 if violations else 0)
     main()
